@@ -251,6 +251,32 @@ fn gen_u16_list(t: &mut Tape, max: usize) -> Vec<u16> {
     }
 }
 
+/// RFC 8446 4.1.3: the ServerHello.random that marks a HelloRetryRequest (SHA-256 of "HelloRetryRequest")
+pub const HRR_RANDOM: [u8; 32] = [
+    0xcf, 0x21, 0xad, 0x74, 0xe5, 0x9a, 0x61, 0x11, 0xbe, 0x1d, 0x8c, 0x02, 0x1e, 0x65, 0xb8, 0x91, 0xc2, 0xa2, 0x11, 0x16, 0x7a, 0xbb, 0x8c, 0x5e, 0x07, 0x9e, 0x09, 0xe2, 0xc8, 0xa8, 0x33, 0x9c,
+];
+
+/// a hello random: 32 arbitrary bytes, or (about one time in six) one of the values the RFCs give a meaning to - the
+/// HelloRetryRequest marker, the two downgrade sentinels in the last eight bytes, a one-bit neighbour of the marker, all-zero / all-one.
+/// A parser or state machine is required to treat all of them as opaque bytes.
+pub fn gen_random(t: &mut Tape) -> Vec<u8> {
+    let mut r = t.bytes(32);
+    if t.chance(44) {
+        match t.below(7) {
+            0 | 1 | 2 => r = HRR_RANDOM.to_vec(),
+            3 => r[24..].copy_from_slice(b"DOWNGRD\x01"),
+            4 => r[24..].copy_from_slice(b"DOWNGRD\x00"),
+            5 => {
+                r = HRR_RANDOM.to_vec();
+                let i = t.below(32);
+                r[i] ^= 1 << t.below(8);
+            }
+            _ => r = vec![if t.bool() { 0 } else { 0xff }; 32],
+        }
+    }
+    r
+}
+
 /// one handshake value of the given kind (0..HS_KINDS), encoded size <= about `budget` + 100
 pub fn gen_hs_kind(t: &mut Tape, kind: usize, budget: usize) -> MHs {
     let b = budget;
@@ -258,7 +284,7 @@ pub fn gen_hs_kind(t: &mut Tape, kind: usize, budget: usize) -> MHs {
         0 => MHs::HelloRequest,
         1 => {
             let version = t.u16b();
-            let random = t.bytes(32);
+            let random = gen_random(t);
             let sid = gen_sid(t);
             let ciphers = gen_u16_list(t, (b / 2).min(32767));
             let nc = t.small(255);
@@ -269,14 +295,14 @@ pub fn gen_hs_kind(t: &mut Tape, kind: usize, budget: usize) -> MHs {
         }
         2 => {
             let version = t.pick(&[0x0303u16, 0x0301, 0x0302, 0x0300]);
-            let random = t.bytes(32);
+            let random = gen_random(t);
             let sid = gen_sid(t);
             let cipher = t.u16b();
             let comp = t.u8();
             let ext = if version == 0x0300 { None } else { gen_opt_ext(t, b) };
             MHs::ServerHello { version, random, sid, cipher, comp, ext }
         }
-        3 => MHs::ServerHelloD18 { version: 0x7f12, random: t.bytes(32), cipher: t.u16b(), ext: gen_opt_ext(t, b) },
+        3 => MHs::ServerHelloD18 { version: 0x7f12, random: gen_random(t), cipher: t.u16b(), ext: gen_opt_ext(t, b) },
         4 => MHs::NewSessionTicket { lifetime: t.u32b(), ticket: t.blob(b) },
         5 => MHs::EndOfEarlyData,
         6 => MHs::HelloRetryRequest { version: t.u16b(), cipher: t.u16b(), ext: gen_opt_ext(t, b) },
@@ -877,7 +903,7 @@ pub fn gen_dtls_body(t: &mut Tape, budget: usize) -> (u8, MDtlsBody) {
     match t.below(6) {
         0 => {
             let version = t.pick(&[0xfefdu16, 0xfeff, 0x0303, 0x1234]);
-            let random = t.bytes(32);
+            let random = gen_random(t);
             let sid = gen_sid(t);
             let nck = t.len(255);
             let cookie = t.bytes(nck);
@@ -893,7 +919,7 @@ pub fn gen_dtls_body(t: &mut Tape, budget: usize) -> (u8, MDtlsBody) {
         }
         2 => (
             2,
-            MDtlsBody::ServerHello { version: gen_version(t), random: t.bytes(32), sid: gen_sid(t), cipher: t.u16b(), comp: t.u8(), ext: gen_opt_ext(t, b) },
+            MDtlsBody::ServerHello { version: gen_version(t), random: gen_random(t), sid: gen_sid(t), cipher: t.u16b(), comp: t.u8(), ext: gen_opt_ext(t, b) },
         ),
         3 => {
             let n = t.small(6);
